@@ -135,6 +135,12 @@ CHECKS.update({
          REAL_NOTE, "§5 C18"),
 })
 
+CHECKS.update({
+ "C23": ("fault_enumeration", "fault injection: exhaustive closure-level rename faults/crashes (hook H7) + strace syscall error/SIGKILL injection into the real generator process, with a directory-tree oracle",
+         "Every combination of {ok, error, crash-before, crash-after} on the three renames of the publish/rollback sequence from every initial state {absent, file, previous directory} is executed through the injectable publish routine (the whole space: 192 plans); the real generate_all_circuit_binaries runs in a child process under strace where the k-th filesystem-mutating syscall returns EIO/ENOSPC or the process is SIGKILLed at syscall entry (quick: publish-phase syscalls; thorough: every syscall, three initial states); after every run each file is compared byte-wise with the previous and the new set.",
+         "Trusted base: the harness's tree oracle; a panic in the injected closure stands for process death (no drop guards on that path); strace needs ptrace - when unavailable the syscall sub-check is skipped and recorded, the closure space still decides.", "§5 C23"),
+})
+
 def head(repo):
     return subprocess.check_output(["git", "-C", repo, "log", "--format=%h %s", "--grep=^verif-hooks", "--reverse"], text=True).strip().splitlines()
 
